@@ -40,7 +40,7 @@ def knee_iou(p, idx):
 @st.composite
 def cases(draw, tier):
     c = draw(S.curves(3, 40 if tier == 'quick' else 200,
-                      families=['plateau', 'plateau', 'steps', 'mono_dec', 'noise', 'convex', 'pwl_dyadic',
+                      families=['plateau', 'plateau', 'ulp', 'ulp', 'steps', 'mono_dec', 'noise', 'convex', 'pwl_dyadic',
                                 'pwl_rational', 'flat', 'trace', 'repo', 'concave'],
                       big_n=160 if tier == 'quick' else 600))
     pts = c['pts']
